@@ -83,8 +83,10 @@ CLAIMS = {
        "eval_guard_named_clause / the clause evaluator's unary path, error propagation of the CNF combinator. Plus MIR-level searches "
        "(z3+cvc5; havoc mode, directed CFG paths) for failing arithmetic-overflow / negate asserts in emit_code, retrieve_index and "
        "query_retrieval_with_converter, and for out-of-bounds `v[i]` in operators::contained_in, EqOperation::compare and "
-       "each_lhs_compare (len / is_empty / index modelled per value); every candidate is replayed through the real CLI. Five genuine "
-       "C08 defects were found this way and fixed (known_findings.json: fixed).",
+       "each_lhs_compare and in the argument lists of the substring / join / regex_replace built-ins (len / is_empty / index modelled per "
+       "value; arity assumed as checked by the parser), and for `unwrap()` on the fallible parameter merge of the --structured path; "
+       "every candidate is replayed through the real CLI. Seven genuine C08 defects were found this way and fixed "
+       "(known_findings.json: fixed).",
   note="NOT covered: arbitrary bytes through the nom parser and libyaml, recursion depth, the report builder's unreachable!()s, "
        "operators.rs match_value. K14 stubs values::read_from (forced to fail) and str::trim (identity).",
   design="4/C08"),
@@ -121,6 +123,20 @@ CLAIMS = {
        "operator-level `not` (flip table); each of < <= > >= is dispatched to its own comparison function. NOT covered: lists and maps "
        "(heap recursion), regex matching (engine stubbed out), `in` lists.",
   design="4/C13"),
+ "C15": dict(
+  text="Bounded symbolic execution (MIR, callees modelled, value identities tracked; z3+cvc5) of the resolution machinery: "
+       "BlockScope::resolve_variable and RootScope::resolve_variable look a name up under that name in their own literal, cache, function "
+       "and query tables; the enclosing scope is asked only when none of them defines it (inner definitions shadow outer ones), with the "
+       "same name, and its answer is passed on unchanged; a query variable is evaluated from position 0 against THIS scope's root value "
+       "with this scope as resolver; what is stored in a scope's cache is exactly what is returned (first reference == later references); "
+       "eval_parameterized_rule_call (<=2 arguments): arity mismatch or a failing argument is an error, the k-th argument is bound to the "
+       "k-th parameter name, the called rule is evaluated once in a context holding exactly these bindings on top of the caller's, and "
+       "its status is returned unchanged.",
+  note="This decides the wiring of variable and parameter resolution, not program equivalence: that a program and its abstracted form "
+       "give the same verdict additionally needs query traversal, block_scope construction (extract_variables) and the parser's "
+       "`[*]` insertion after a leading variable, none of which is examined. The `%var empty` exception is covered under C01/C03 "
+       "(k8v harnesses). No Kani harness serves this property.",
+  design="0b/C15"),
  "C16": dict(
   text="Bounded model checking of the expectation-matching kernel get_status_result (1..3 definitions x all statuses x all expectations: "
        "met iff some definition has the expected non-SKIP status, or all are SKIP when SKIP is expected; returned status = expected) and "
@@ -128,18 +144,31 @@ CLAIMS = {
   note="NOT covered: that `test` and `validate` compute the same statuses (two loaders + the evaluator), rules without expectations, the "
        "four renderings.",
   design="4/C16"),
+ "C17": dict(
+  text="PathAwareValue::merge decided twice: by Kani/CBMC on one-entry maps with symbolic integer values (disjoint keys: Ok with both "
+       "entries, in either order; equal keys: MultipleValues error even for equal values; map vs scalar: IncompatibleError) and on MIR "
+       "(z3+cvc5, second map with <=2 entries, `contains_key` / the previous value returned by `insert` arbitrary): Ok only if NO key of "
+       "the second map was already defined - whatever the values, including null - and then every entry is stored under its own key with "
+       "its own value and listed in `keys`; a key defined twice is an Err; disjoint maps never give an Err. The --structured call site "
+       "never unwraps a failing merge (found a panic there; fixed).",
+  note="NOT covered: the folding loop over -i files in Validate::execute (file I/O), that `keys` and `values` stay aligned for `keys` "
+       "filters beyond the per-entry push, list merging semantics (extend), equality of verdicts with the pre-merged document.",
+  design="0b/C17"),
  "C18": dict(
   text="Bounded model checking of the small built-ins: substring on strings of 0..3 bytes (thorough: 4) built from symbolic 1/2/3-byte "
        "characters with offsets ranging over ALL usize values (ASCII: exactly chars from..to when from<to<=len, otherwise skipped; any "
        "encoding: never panics, any result is the byte slice), element-wise skipping of non-string/unresolved members; count over "
-       "0..3 entries of symbolic kind; parse_int / parse_char / parse_float on non-string inputs (value or error, never a wrong value).",
+       "0..3 entries of symbolic kind; parse_int / parse_char / parse_float on non-string inputs (value or error, never a wrong value). "
+       "Dispatch is decided on MIR (z3+cvc5): FunctionName::call evaluates every built-in name with its own implementation on the unchanged "
+       "argument lists, and each one-line wrapper (to_upper, to_lower, url_decode, json_parse, parse_*) applies exactly its documented "
+       "function to its single argument list and returns that result.",
   note="NOT covered: join (String::with_capacity(512)+push_str over heap strings: CBMC aborts at 14 GB), parse_bool/to_upper/to_lower "
        "(Unicode case tables reachable through heap-held kinds), url_decode, regex_replace, json_parse, parse_epoch, now, string "
        "parsing (`parse::<i64>` on symbolic bytes), dispatch/arity in the parser, results bound to variables.",
   design="4/C18"),
 }
 
-MIR_ONLY = {"C12"}
+MIR_ONLY = {"C12", "C15"}
 
 NA = {
  "C05": "needs fresh hash seeds/processes; symbolic SipHash keys through hashbrown and the serde/console writers are beyond CBMC (a HashMap with unknown keys timed out at 10 min on two inserts)",
@@ -147,8 +176,6 @@ NA = {
  "C10": "path construction and value cloning drop/clone heap-held PathAwareValues and positions come from libyaml marks; the chain (loader -> operators.rs -> report builder) is out of CBMC's reach",
  "C11": "unsafe-libyaml (transpiled C) + serde_yaml text parsing and str::parse::<f64> on symbolic bytes are not feasible CBMC targets; the equivalence is across three loaders",
  "C14": "nom/LocatedSpan combinators do not terminate under CBMC even on a 2-byte symbolic input (18 min, 7 GB); the parser is outside this technique on this image",
- "C15": "requires the real scope chain (six HashMaps per scope), lazily memoised resolution and query traversal in eval_context.rs, which CBMC does not get through",
- "C17": "PathAwareValue::merge consumes two IndexMap<String, PathAwareValue> (hashing of symbolic keys + heap value moves); the double implementation of the merge is in I/O code",
  "C19": "serde template parsing + string building + the full parser and evaluator round trip; whole-program",
 }
 
@@ -188,7 +215,7 @@ def main():
         "engines": [
             {"name": "kani-cbmc", "path": "/verif/check", "serves_properties": sorted(set(CLAIMS) - MIR_ONLY),
              "kind_free_text": "Kani 0.68 (rustc MIR -> goto-program) + CBMC 6.11 (symbolic execution, bit-blasting, CaDiCaL) over the real cfn-guard crate; counterexamples replayed natively with cargo kani playback"},
-            {"name": "mir-smt", "path": "/verif/lib/mirsmt.py", "serves_properties": ["C01", "C02", "C03", "C04", "C06", "C08", "C09", "C12", "C13", "C16"],
+            {"name": "mir-smt", "path": "/verif/lib/mirsmt.py", "serves_properties": ["C01", "C02", "C03", "C04", "C06", "C08", "C09", "C12", "C13", "C15", "C16", "C17", "C18"],
              "kind_free_text": "nightly -Zunpretty=mir dump of the current tree; lib/mirsmt.py (loop-free kernels, havoc-mode overflow/negate site search), lib/mirexec.py (bounded path enumeration with call models, loop unrolling, value identities) and lib/miragg.py / mirblocks.py / mirflow.py (aggregation, memoisation, index, negation-flow, block, operator-layer, wiring and exit-code obligations) emit SMT-LIB2 decided by z3 4.8.12 and cvc5 1.0 (must agree); candidates are replayed through the real CLI built from the scratch copy"},
         ],
         "checks": checks,
